@@ -14,7 +14,7 @@ import processscheduler as ps
 
 from symx import engine, formula, stubs
 from symx.formula import And, Or, Not, Implies
-from symx.harness import Shape, Ob, Ctx, run_property, quiet
+from symx.harness import library_failure, confirm_library_failure, Shape, Ob, Ctx, run_property, quiet
 from checks.common import make_task
 
 PROP = "C11"
@@ -452,6 +452,7 @@ def concrete_shape(variant, delta_i, with_start):
     def build(P):
         return Ctx(problem=None)
 
+    @library_failure
     def fn(ctx, path):
         problems = check_concrete(variant, DELTAS[delta_i], with_start)
         if problems:
@@ -531,6 +532,7 @@ def check_concrete(variant, delta, with_start):
     return problems
 
 
+@confirm_library_failure
 def replay_concrete(desc):
     import symx.harness as H
 
